@@ -203,6 +203,11 @@ func (w *World) genContainer(depth int, addr atree.Address) (*Node, error) {
 	if err != nil {
 		return nil, err
 	}
+	if n.TI.Composite && cnt > 3 && r.Intn(2) == 0 {
+		// most composite values have 2-3 fields, so that several same-typed ones with equal field sets meet in one parent
+		// slab and share the compact form's key / digest lists
+		cnt = 2 + r.Intn(2)
+	}
 	if n.TI.Composite && r.Intn(3) == 0 {
 		// composite values with many fields (the shared key / digest lists of the compact form grow past the sizes
 		// that fit the encoder's scratch space)
